@@ -1,7 +1,7 @@
 #!/bin/bash
 # Developer helper: verify (suite + demo with / without the change) and detect (own property's quick check) for every
 # seeded change, in 4 lanes; results in seeded/detection_results.txt and seeded/verify_results.txt.
-cd /verif
+cd "$(dirname "$(readlink -f "$0")")"
 names=$(ls -d seeded/*/ | xargs -n1 basename | sort)
 out=$(mktemp -d)
 lane=0
